@@ -127,8 +127,7 @@ def replay(pid, path):
     rp = json.load(open(path))
     wl_bin = vlib.build_harness('wl', 'asan', exclude=['db_impl.c'])
     if 'script' in rp:
-        rc, out, err = wl_run.run_script(wl_bin, rp['script'])
-        problems, stats = wl_run.run_tracecheck(out)
+        rc, out, err, problems, stats = wl_run.replay_script(wl_bin, rp['script'])
         print('rc', rc, 'stats', stats)
         for p in problems[:20]:
             print(p)
